@@ -270,7 +270,8 @@ func (s *Session) Exec(line string) (obs string, viol string) {
 		case "one":
 			s.Cache = mast.NewNodeCache(1)
 		case "recbig":
-			s.Cache = &recCache{inner: mast.NewNodeCache(100000), seen: map[string]interface{}{}}
+			// (the nodes the earlier cache holds stay part of the dumped object graph)
+			s.Cache = &recCache{inner: mast.NewNodeCache(100000), seen: map[string]interface{}{}, prev: s.Cache.(*recCache)}
 		}
 		return "ok", ""
 	case "difflinks":
